@@ -42,12 +42,25 @@ Open Scope Z_scope.
    runs that exhaust it. *)
 Theorem C03_prune_sound_partial_residual :
   forall c prog eps fuel o e,
+    c_calls c = false ->          (* round 5: no right-hand side with a user call is dropped *)
     covered_ok c prog = true ->
     run_impl (c_p2 c) eps fuel prog = (o, e) ->
     (c_nr c = true -> tol_ending e = false) ->
     run_impl (c_p1 c) eps fuel prog = (o, e).
-Proof. exact prune_residual_sound_lemma. Qed.
+Proof. exact prune_residual_sound_nocalls. Qed.
 Print Assumptions C03_prune_sound_partial_residual.
+
+(* round 5, the general form: with c_calls c = true never-read stores whose right-hand side
+   calls functions of the checked table c_pt are dropped too, and four more endings of the
+   residual run are not compared (tol_ending_x) *)
+Theorem C03_prune_sound_residual_x :
+  forall c prog eps fuel o e,
+    covered_ok c prog = true ->
+    run_impl (c_p2 c) eps fuel prog = (o, e) ->
+    (c_nr c = true -> tol_ending_x (c_calls c) e = false) ->
+    run_impl (c_p1 c) eps fuel prog = (o, e).
+Proof. exact prune_residual_sound_lemma. Qed.
+Print Assumptions C03_prune_sound_residual_x.
 
 (* what the check evaluates: the classifier's own verdict is the hypothesis *)
 Theorem C03_plan_ok_sound :
@@ -638,7 +651,10 @@ Theorem C03_plan_ok4_sound :
 Proof. exact plan_ok4_sound_lemma. Qed.
 Print Assumptions C03_plan_ok4_sound.
 
-Theorem C03_prune_sound_five_classes :
+(* THE UMBRELLA STATEMENT of C03: every entry of the plan in one of the proved classes
+   (unreachable, unused function, never read - with or without calls of pure functions -,
+   flow-sensitive dead store - with or without such calls): the pruned run is the plain run *)
+Theorem C03_prune_sound_all_classes :
   forall prog ss fs eps fuel o e,
     v_checked (x_main (plan_ok4 prog ss fs)) = true ->
     x_checked (plan_ok4 prog ss fs) = true ->
@@ -647,12 +663,12 @@ Theorem C03_prune_sound_five_classes :
     tol_ending_x true e = false ->
     run_impl (Some (ss, fs)) eps fuel prog = (o, e).
 Proof. exact prune_sound_five_classes_lemma. Qed.
-Print Assumptions C03_prune_sound_five_classes.
+Print Assumptions C03_prune_sound_all_classes.
 
 (* with the static checkers of C06 (wf_static: argument counts, parameter ranges, loop control;
    wf_scoped: every variable and function a run looks up is there) no panic ending is left
    out: the ONLY run that is not compared is the one that exhausts its fuel *)
-Theorem C03_prune_sound_five_classes_wf :
+Theorem C03_prune_sound_all_classes_wf :
   forall prog ss fs eps fuel o e,
     v_checked (x_main (plan_ok4 prog ss fs)) = true ->
     x_checked (plan_ok4 prog ss fs) = true ->
@@ -662,22 +678,24 @@ Theorem C03_prune_sound_five_classes_wf :
     e <> EFuel ->
     run_impl (Some (ss, fs)) eps fuel prog = (o, e).
 Proof. exact prune_sound_five_classes_wf_lemma. Qed.
-Print Assumptions C03_prune_sound_five_classes_wf.
+Print Assumptions C03_prune_sound_all_classes_wf.
 
-(* PARTIAL: what class 5 does not cover.  The store must hit a slot that exists (assignment,
-   or re-declaration in the scope that already holds the local).  A pruned FIRST declaration
-   `make u get f(..)` (u mentioned by nothing that runs) goes through the never-read class of
-   PlanCheck, whose right-hand sides are still call-free: missing is the extended tolerance
-   and the pfns_ok invariant in the projection simulation of PlanProofs (main_sim /
-   pruned_exec); C03_pure_callee_no_effect is already the lemma it needs.  The statement that
-   remains to be proved, for the record: *)
-Definition C03_first_declaration_with_call_statement_partial : Prop :=
-  forall prog u i n e rest eps fuel o en,
-    prog = SMake (Some i) n (Some u) e :: rest ->
-    pfe (mk_pt None prog) e = true ->
-    ~ In u (read_ids prog) ->
-    run_impl None eps fuel prog = (o, en) -> tol_ending_x true en = false ->
-    run_impl (Some ([i], [])) eps fuel prog = (o, en).
+(* ROUND 5: a pruned FIRST declaration `make u get f(..)` (u mentioned by nothing that runs)
+   goes through the never-read class: PlanCheck.plan_ok_x = plan_ok with right-hand sides
+   checked by pfe against a table of pure callees that covered_ok re-verifies for every
+   registered function (stmt_ok on SFun: pf_fun under the residual plan); the projection
+   simulation of PlanProofs carries the purity invariant in st_ok/fd_ok and the same extended
+   tolerance.  plan_ok4 = plan_ok_x + the call-enabled liveness class, so the round-4
+   theorems above now cover both shapes (the former statement
+   C03_first_declaration_with_call_statement_partial is closed by C03_plan_ok_x_sound). *)
+Theorem C03_plan_ok_x_sound :
+  forall prog ss fs eps fuel o e,
+    v_checked (plan_ok_x prog ss fs) = true ->
+    run_impl (Some (v_residual (plan_ok_x prog ss fs))) eps fuel prog = (o, e) ->
+    tol_ending_x true e = false ->
+    run_impl (Some (ss, fs)) eps fuel prog = (o, e).
+Proof. exact plan_ok_x_sound_lemma. Qed.
+Print Assumptions C03_plan_ok_x_sound.
 
 (* do f(p) start make t get [p, 1]  if to say (true) start t get "{t}" end  return t end
    make u get 0   u get f(3)   shout(2)                                    plan S 6 F *)
@@ -735,7 +753,18 @@ Example C03_nonterminating_callee_is_not_compared :
   run_impl (Some ([3], [])) eps0 40 ex_call_diverges = ([VNum (of_Z 2)], Done).
 Proof. vm_compute. repeat split; reflexivity. Qed.
 
-(* the first-declaration form stays outside (see the partial statement above) *)
-Example C03_first_declaration_with_call_not_covered :
-  x_residual (plan_ok4 ex_user_call [3] []) = ([3], []).
+(* the first-declaration form (ex_user_call, plan S 3 F): never-read class with a call *)
+Example ex_user_call_first_declaration_covered :
+  let y := plan_ok4 ex_user_call [3] [] in
+  v_checked (x_main y) = true /\ x_checked y = true /\ x_residual y = ([], []) /\
+  v_stmt (x_main y) = [(3, CNeverRead)] /\
+  v_stmt (plan_ok ex_user_call [3] []) = [(3, CDeadStoreCall)].
+Proof. vm_compute. repeat split; reflexivity. Qed.
+(* a callee that is not pure keeps the declaration out: do g() start shout(1) return 0 end *)
+Example ex_user_call_impure_first_declaration :
+  x_residual (plan_ok4
+    [SFun (Some 0) [103] [] [SExpr (Some 1) (ECall (EVar sh None) [(ENum (of_bits 0))] None);
+                             SRet (Some 2) (Some (ENum (of_bits 0)))] (Some 1) 0 0;
+     SMake (Some 3) [117] (Some 0) (ECall (EVar [103] None) [] (Some 1));
+     SExpr (Some 4) (ECall (EVar sh None) [(ENum (of_bits 4611686018427387904))] None)] [3] []) = ([3], []).
 Proof. vm_compute. reflexivity. Qed.
